@@ -248,9 +248,5 @@ func summariseModel(m string) string {
 	return strings.Join(out, "\n")
 }
 
-func cmdCheck(args []string) {
-	fmt.Fprintln(os.Stderr, "check: not yet implemented")
-	os.Exit(2)
-}
 
 var _ = types.Typ
